@@ -59,13 +59,17 @@ ASSUMPTIONS = [
     "theorems are over R; the implementation computes in IEEE doubles",
 ]
 NOT_COVERED = [
+    "the numerical content of to_local beyond orthonormality / equivariance (which axis is which: q along position, t along velocity, w along angular momentum) is checked by the oracle against an independent implementation only",
     "frames created at run time (orbit2frame, ground stations, JPL bodies: different centres) and the curvilinear Hill frame",
     "covariances attached to a state given in a rotating frame (outside the property's quantifier)",
     "EOP-dependent content of the conversion matrices (C02)",
 ]
 OPEN = [
-    "path_independent (full statement) is false of the current code: a QSW/TNW target reached after the covariance visited a frame other than the state's original one uses the axes of the re-framed private copy against a matrix rotated back to the original frame (known finding C14-local-after-reframe; proposed_fixes/C14-cov-private-copy-reframed.diff)",
-    "composition laws of Orientation.convert_to are taken as hypotheses (C02 proves them), not re-proved here",
+    "path_independent (full statement) is false of the current code: a QSW/TNW target reached after the covariance visited a frame other than the state's original one uses the axes of the re-framed private copy against a matrix rotated back to the original frame (known finding C14-local-after-reframe; kernel-checked witness C14W.local_after_reframe_differs; proposed_fixes/C14-cov-private-copy-reframed.diff, for which path_independent_fixed proves the full statement in the model)",
+    "a Cov constructed with the *name* of a frame (documented `frame (str)`, used by io/ccsds/cov.py) is outside the model: the real setter raises AttributeError and the covariance does not follow its state (known findings C14-frame-name-tag-unconvertible / -not-following; proposed_fixes/C14-cov-frame-name-not-resolved.diff); oracle only",
+    "composition laws of Orientation.convert_to (Laws) and the block shape of the conversion matrices (PosShape) are hypotheses here (C02 proves them); the oracle evaluates them on the real matrices",
+    "local_orthonormal / local_equivariant are proved for the list model of to_qsw / to_tnw (templates/Local.tpl, R instantiation); the sequence theorems take orthogonality of toLocal as the matrix hypothesis LocOrth - the bridge between rows-as-lists and Matrix (Fin 3 + Fin 3) is not formalised",
+    "copy_rebases covers frame-tagged covariances; a copy taken while the tag is QSW/TNW after a re-framing inherits the defect above (exercised by the correspondence, no theorem)",
 ]
 RULE = ("correspondence: random sequences (length 1-5) of cov hops / state hops / copies over the 10 built-in frames + QSW/TNW from each non-rotating start frame, "
         "random orbits and PSD matrices, real conversion matrices handed to the compiled Lean model; bookkeeping fields exact, matrices rtol 1e-9; plus to_local alone; "
@@ -347,7 +351,7 @@ def correspondence(ctx):
     out = Outcome()
     rng = ctx.rng
     reqs, meta = [], []
-    for it in range(ctx.n(700, 20000)):
+    for it in range(ctx.n(700, 12000)):
         f0 = NONROT[it % len(NONROT)]
         if rng.random() < 0.05:
             f0 = rng.choice(["ITRF", "PEF", "TIRF"])     # outside the property's quantifier, inside the model's
@@ -608,22 +612,90 @@ def laws(out, rng, n):
 
 
 def replay(f):
-    """re-run the recorded input: sequence vs single hop and the per-hop invariants"""
+    """re-run the recorded input against the current tree; reproduces iff the same family fails again"""
     import numpy as np
+    from beyond.orbits.cov import Cov
+    from beyond.frames.frames import get_frame
     out = Outcome()
     inp = f["input"]
+    fam = f["family"]
+    if fam.startswith("conv-law") or fam == "local-equivariance":
+        tmp = Outcome()
+        import random
+        laws(tmp, random.Random(0), 40)
+        for g in tmp.failures:
+            if g["family"] == fam:
+                out.failures.append(g)
+        return out
     c0 = np.array(inp["cov"])
-    date = inp["date"]
-    x, f0, seq = inp["x"], inp["start"], inp["seq"]
+    date, x, f0, seq = inp["date"], inp["x"], inp["start"], inp["seq"]
+    d = np.sqrt(np.abs(np.diag(c0)))
+    s = np.array([d[:3].max()] * 3 + [d[3:].max() + 7.3e-5 * d[:3].max()] * 3) + 1e-300
+    if fam.startswith("string-frame-tag"):
+        tmp = Outcome()
+        sv = make_sv(x, date, f0)
+        try:
+            if fam.endswith("not-following"):
+                sv.cov = Cov(sv, c0.copy(), f0)
+                sv.frame = seq[0]
+                bad = (sv.cov.frame if isinstance(sv.cov.frame, str) else sv.cov.frame.name) != seq[0]
+            else:
+                c = Cov(sv, c0.copy(), f0)
+                c.frame = seq[0]
+                bad = False
+        except Exception:  # noqa: BLE001
+            bad = True
+        if bad:
+            out.fail(fam, f["what"], inp)
+        return out
     if "mids" in inp:
-        seq = inp["mids"] + [inp["local"]]
-    s = np.sqrt(np.abs(np.diag(c0))) + 1e-300
-    s = np.array([s[:3].max()] * 3 + [s[3:].max() + 7.3e-5 * s[:3].max()] * 3)
+        # state hops, then (optionally) a local target on the followed covariance
+        sv = make_sv(x, date, f0)
+        sv.cov = Cov(sv, c0.copy(), get_frame(f0))
+        for g in inp["mids"]:
+            sv.frame = g
+        single, _ = make_cov(x, date, f0, c0)
+        single.frame = inp["mids"][-1]
+        bad = not mclose(np.array(sv.cov), np.array(single), s)
+        if "local" in inp:
+            sv.cov.frame = inp["local"]
+            R = ref_local(inp["local"], x)
+            bad = not mclose(np.array(sv.cov), R @ c0 @ R.T, s)
+        if bad:
+            out.fail(fam, f["what"], inp)
+        return out
+    if "g" in inp and fam.startswith("follows-state"):
+        sv = make_sv(x, date, f0)
+        sv.cov = Cov(sv, c0.copy(), get_frame(f0))
+        sv2 = sv.copy(frame=inp["g"])
+        single, _ = make_cov(x, date, f0, c0)
+        single.frame = inp["g"]
+        if sv2.cov is None or sv2.cov.frame is not get_frame(inp["g"]) or not mclose(np.array(sv2.cov), np.array(single), s) \
+                or not np.array_equal(np.array(sv.cov), c0):
+            out.fail(fam, f["what"], inp)
+        return out
     cov, _ = make_cov(x, date, f0, c0)
+    ev0 = np.linalg.eigvalsh(c0[:3, :3])
+    per_hop = False
     for t in seq:
         cov.frame = t
+        m = np.array(cov)
+        ev = np.linalg.eigvalsh((m[:3, :3] + m[:3, :3].T) / 2)
+        n = m / np.outer(s, s)
+        if not mclose(m, m.T, s, 1e-12) or np.linalg.eigvalsh((n + n.T) / 2).min() < -1e-9 * max(1.0, np.abs(n).max()) \
+                or not np.all(np.abs(ev - ev0) <= 1e-9 * max(ev0.max(), 1e-300)):
+            per_hop = True
     single, _ = make_cov(x, date, f0, c0)
     single.frame = seq[-1]
-    if not mclose(np.array(cov), np.array(single), s):
-        out.fail(f["family"], "covariance after the recorded sequence differs from the single hop", inp)
+    R = ref_local(seq[-1], x) if seq[-1] in LOCAL else state_jacobian(x, date, f0, seq[-1])
+    final = np.array(cov)
+    cov.frame = f0
+    verdict = {
+        "path-dependent": not mclose(final, np.array(single), s),
+        "back-conversion": not mclose(np.array(cov), c0, s),
+        "single-hop-reference": not mclose(np.array(single), R @ c0 @ R.T, s),
+        "asymmetric": per_hop, "not-psd": per_hop, "pos-spectrum": per_hop,
+    }
+    if verdict.get(fam.split(":")[0], True if fam.split(":")[0] not in verdict else False):
+        out.fail(fam, f["what"], inp)
     return out
